@@ -20,7 +20,7 @@ from .. import sched
 ID = "C12"
 LEVEL = "model_checking"
 ENGINE = "E2+E3"
-CAP_S = {"quick": 300, "thorough": 2400}
+CAP_S = {"quick": 300, "thorough": 3600}
 TECHNIQUE = ("explicit-state BFS over operation histories of the real Progress against a reference model, plus "
              "stateless preemption-bounded schedule exploration of concurrent mutators with a linearizability oracle")
 LEVEL_TEXT = ("Every operation history up to the depth bound (deduplicated on a canonical state) and every schedule of "
